@@ -75,6 +75,19 @@ class Engine(StmtMixin):
             env[a.vararg.arg] = T("tuple", z3.Const("p_" + a.vararg.arg, U.SeqV))
         if a.kwarg:
             pass  # **kwds of an abstract method: no keyword is ever passed by the package (checked at call sites)
+        if ".<locals>." in qual:
+            # a nested function: the variables it reads from the enclosing function are further (symbolic) parameters,
+            # constrained by the contract's requires like any other
+            outer = self.src.functions.get(mod + ":" + qual.rsplit(".<locals>.", 1)[0])
+            if outer is not None:
+                oa = outer.args
+                names = [p.arg for p in oa.posonlyargs + oa.args + oa.kwonlyargs]
+                for n in outer.body:
+                    if isinstance(n, ast.Assign):
+                        names += [t.id for t in n.targets if isinstance(t, ast.Name)]
+                for nm in names:
+                    if nm not in env:
+                        env[nm] = T("V", z3.Const("p_" + nm, self.V))
         if fn.name == "__init__" and self.cur_class:
             from .expr import Rec
 
@@ -426,7 +439,7 @@ class Engine(StmtMixin):
         S[j], and every ground term S[t] in the query, add the tautology Q -> phi(t)."""
         added, seen_inst = [], set()
         cur = list(forms)
-        allq, alln = {}, {}
+        allq, alln, skolems = {}, {}, {}
         srcids = None if sources is None else {f.get_id() for f in sources}
         for _ in range(rounds):
             for f in cur:
@@ -437,6 +450,18 @@ class Engine(StmtMixin):
                 for k, v in n.items():
                     alln.setdefault(k, {}).update(v)
             new = []
+            # the goal's own skolem positions are tried on every position quantifier, whatever sequence it ranges over:
+            # the sequence of the hypothesis and that of the goal are often equal only by congruence (o.f == o'.f)
+            for f in cur:
+                if srcids is None or f.get_id() in srcids:
+                    skolems.update(_scan_skolems(f))
+            for q in allq.values():
+                if q.is_forall() and skolems and _nth_on_var_cached(q) and q.var_sort(0).kind() == z3.Z3_INT_SORT:
+                    for idx in skolems.values():
+                        key = (q.get_id(), idx.get_id())
+                        if key not in seen_inst:
+                            seen_inst.add(key)
+                            new.append(z3.Implies(q, z3.substitute_vars(q.body(), idx)))
             for q in allq.values():
                 for sq in _nth_on_var_cached(q):
                     for idx in alln.get(sq.get_id(), {}).values():
@@ -648,6 +673,32 @@ def _scan_quant_nth(f):
             stack.extend(t.children())
     _scan_cache[k] = (quants, nths)
     return quants, nths
+
+
+_sk_cache = {}
+
+
+def _scan_skolems(f):
+    """integer skolem constants (introduced by Engine._skolemize) occurring in f"""
+    k = pin(f)
+    hit = _sk_cache.get(k)
+    if hit is not None:
+        return hit
+    out = {}
+    stack, seen = [f], set()
+    while stack:
+        t = stack.pop()
+        if t.get_id() in seen:
+            continue
+        seen.add(t.get_id())
+        if z3.is_quantifier(t):
+            stack.append(t.body())
+        elif z3.is_app(t):
+            if t.num_args() == 0 and t.decl().kind() == z3.Z3_OP_UNINTERPRETED and t.sort().kind() == z3.Z3_INT_SORT and t.decl().name().startswith("sk_"):
+                out[t.get_id()] = t
+            stack.extend(t.children())
+    _sk_cache[k] = out
+    return out
 
 
 def _nth_on_var_cached(q):
